@@ -26,6 +26,12 @@ CLAIMED = {
 CLAIMED["C01"] = dict(technique="static analysis: determinism scan over the call-graph closure of merge and linearisation, dominance of the equal-id edge, SSA backward slices with control dependence (post-dominator based) for the inputs of the merged head set",
    text="Decides structural necessary conditions of convergence on every path: the merge/linearisation closure has no source of nondeterminism, a foreign-id log changes nothing, the merged heads depend on all four inputs a correct merge needs (both head sets, the new items' predecessor links, the destination's predecessor index), the apply phase is unconditional, and map copies/merges never alias or mutate their sources. It does not decide the merge algebra itself.",
    note="Trusted: go/ssa, go/cfg, call graph over first-party implementers. Over-approximate data dependence (may miss a violation, never invents one).", ref="§4 C01")
+CLAIMED["C02"] = dict(technique="static analysis: structural rules on the unreferenced-entry scan (loop/guard structure of FindHeads over go/cfg), SSA field-dependence of stored heads (with control dependence), object identity of the single new head, in-place-mutation scan of the heads field",
+   text="Exactness of the head set for every DAG is not decided. Decides the structural necessary conditions specific to head maintenance on every path: FindHeads indexes every predecessor link unconditionally and returns an entry only on the negative lookup of its own key; Append makes exactly the created entry the head in one critical section; merged heads depend on both head sets, the new items' links and the destination's predecessor index; construction without heads derives them from the stored entries; heads are replaced, never edited in place; the bounded merge recomputes heads over the truncated list.",
+   note="Trusted: go/cfg, go/ssa. These pieces are necessary conditions; their composition to 'exactly the unreferenced entries' is not proved.", ref="§4 C02 (as built)")
+CLAIMED["C09"] = dict(technique="static analysis: SSA field-dependence chains from manifest to fetcher to snapshot to constructor, guard-structure rules on the fetcher's no-limit path, dominance of a tested limit over every trim",
+   text="Equality of a rebuilt log with its source is not decided. Decides the structural necessary conditions specific to reconstruction on every path: the manifest carries the log's id and the hashes of its heads; each loader starts the fetch from the published/supplied heads and hands the fetch result and manifest id to NewLog; with no limit the fetcher queues every predecessor and reference of every fetched entry and admits every fetched entry; loaders trim only after a tested non-negative limit.",
+   note="Trusted: go/cfg, go/ssa. Which blocks a fetch retrieves, and arrival-order independence, are run-time facts outside this check.", ref="§4 C09 (as built)")
 CLAIMED["C03"] = dict(technique="static analysis: AST provenance of the comparator argument of every Sort call in log methods, may-dataflow over go/cfg with flag correlation for re-sort-before-pop, visited-set gate and end-hash stop in traverse",
    text="Decides on every path that the linearisation is driven by the configured comparator, that the work stack is re-sorted after every growth before the next pop, that predecessors enter the stack only through the visited gate and are then marked, that the end hash stops the walk, and that values() reads the log's current heads and index. It does not decide completeness/causality of the walk for every DAG.",
    note="Trusted: go/cfg, go/types.", ref="§4 C03")
@@ -61,8 +67,6 @@ CLAIMED["C20"] = dict(technique="static analysis: SSA data-dependence of post-lo
    note="Trusted: go/cfg, go/ssa; lru and datastore contracts. LRU behaviour and persistence are not covered.", ref="§4 C20")
 
 NOT_APPLICABLE = {
- "C02": "exactness of the head set is set algebra over run-time hashes for every DAG; no checkable structural necessary condition that is not already claimed under C06/C13/C14 (DESIGN §4 C02)",
- "C09": "equality of a reloaded log with its source depends on the closure fetched at run time and on every arrival order; nothing about it is visible in code shape beyond clauses owned by C08/C10/C11 (DESIGN §4 C09)",
 }
 
 PENDING = "static rules for this property are not yet built in this revision (see DESIGN.md §8 build order); not claimed until its check exists and is silent on the unchanged tree"
